@@ -221,6 +221,47 @@ def tables_accumulate(ctx, rule):
     ctx.floor('accumulating tables written by parse_frame', len(grown), 5)
 
 
+def reader_primitives(ctx, rule):
+    """byte / word / short / dword / long are single exact little-endian reads of their width on self.input, returned unchanged (so they
+    fail - not return a default - when the input ends: seed C12-t)"""
+    fx = ctx.fx
+    # ---------------- L0: the reader primitives themselves (width, signedness, endianness, STRING = WORD length + bytes)
+    PRIM = {'byte': ('read_u8', None), 'word': ('read_u16', 'LittleEndian'), 'short': ('read_i16', 'LittleEndian'),
+            'dword': ('read_u32', 'LittleEndian'), 'long': ('read_i32', 'LittleEndian')}
+    for k, (bo, endian) in PRIM.items():
+        pb = ctx.anchor(common.READER + k, 'reader primitive')
+        if pb is None:
+            continue
+        cs = [c for c in q.calls(pb) if c.callee.startswith('byteorder::ReadBytesExt::')]
+        ok = len(cs) == 1 and cs[0].callee.endswith('::' + bo) and is_param_path(q.arg_terms(cs[0])[0], 1, ['input']) and \
+            (endian is None or any(endian in a for a in cs[0].fn.get('args', [])))
+        t = res(pb).ok_ret()
+        ok = ok and t[0] == 'call' and t[1].endswith(bo)
+        if not ok and not cs:
+            # second spelling, without the byteorder crate: one read_exact into a [u8; N] on self.input, then T::from_le_bytes of that
+            # buffer (N = size of T by typing), for byte() element 0 of a [u8; 1]
+            ty_ = bo[len('read_'):]
+            rx = [c for c in q.calls(pb) if q.callee_name(c) == 'std::io::Read::read_exact']
+            ok2 = len(rx) == 1 and is_param_path(q.arg_terms(rx[0])[0], 1, ['input'])
+            if ok2:
+                buf = q.arg_terms(rx[0])[1]
+                if ty_ == 'u8':
+                    ok2 = t[0] == 'index' and t[1] == buf and q.const_val(t[2]) == 0 and any(l_['ty'] == '[u8; 1]' for l_ in pb.locals)
+                else:
+                    want_fn = 'core::num::<impl %s>::from_le_bytes' % ty_
+                    fns = [o_['fn'].get('orig') for c_ in q.calls(pb) for o_ in c_.args if o_.get('k') == 'const' and isinstance(o_.get('fn'), dict)] + \
+                          [(c_.fn or {}).get('orig') for c_ in q.calls(pb)]
+                    conv = [f_ for f_ in fns if f_ and f_.endswith('_bytes')]
+                    ok2 = conv == [want_fn] and t[0] == 'call' and t[1].endswith('from_le_bytes') and len(t[2]) == 1 and t[2][0] == buf
+            ok = ok2
+            ctx.inst(rule, 'reader.' + k, ok, '%s() = %s of one read_exact on self.input; must be %s::from_le_bytes of exactly that buffer' % (k, show(t)[:80], ty_),
+                     pb.span, key=pb.name + '|%s' % rule)
+            continue
+        ctx.inst(rule, 'reader.' + k, ok, '%s() = %s%s on self.input, returned unchanged; must be %s %s' % (
+            k, [c.callee.split('::')[-1] for c in cs], [a for c in cs for a in c.fn.get('args', []) if 'Endian' in a], bo, endian or ''),
+            pb.span, key=pb.name + '|%s' % rule)
+
+
 def reader_string(ctx, rule):
     """STRING = little-endian WORD length, exactly that many bytes, String::from_utf8 of them as read"""
     fx = ctx.fx
@@ -267,41 +308,7 @@ def run(ctx):
         'frame durations are stored/read at the frame\'s own index, every chunk code reaches the decoder of its kind on its '
         'own payload, name lookups scan forward. Decides widths, signedness, order, optionality and wiring for all inputs; '
         'does not decide that values survive std (UTF-8 decoding) or HashMap contents.')
-    # ---------------- L0: the reader primitives themselves (width, signedness, endianness, STRING = WORD length + bytes)
-    PRIM = {'byte': ('read_u8', None), 'word': ('read_u16', 'LittleEndian'), 'short': ('read_i16', 'LittleEndian'),
-            'dword': ('read_u32', 'LittleEndian'), 'long': ('read_i32', 'LittleEndian')}
-    for k, (bo, endian) in PRIM.items():
-        pb = ctx.anchor(common.READER + k, 'reader primitive')
-        if pb is None:
-            continue
-        cs = [c for c in q.calls(pb) if c.callee.startswith('byteorder::ReadBytesExt::')]
-        ok = len(cs) == 1 and cs[0].callee.endswith('::' + bo) and is_param_path(q.arg_terms(cs[0])[0], 1, ['input']) and \
-            (endian is None or any(endian in a for a in cs[0].fn.get('args', [])))
-        t = res(pb).ok_ret()
-        ok = ok and t[0] == 'call' and t[1].endswith(bo)
-        if not ok and not cs:
-            # second spelling, without the byteorder crate: one read_exact into a [u8; N] on self.input, then T::from_le_bytes of that
-            # buffer (N = size of T by typing), for byte() element 0 of a [u8; 1]
-            ty_ = bo[len('read_'):]
-            rx = [c for c in q.calls(pb) if q.callee_name(c) == 'std::io::Read::read_exact']
-            ok2 = len(rx) == 1 and is_param_path(q.arg_terms(rx[0])[0], 1, ['input'])
-            if ok2:
-                buf = q.arg_terms(rx[0])[1]
-                if ty_ == 'u8':
-                    ok2 = t[0] == 'index' and t[1] == buf and q.const_val(t[2]) == 0 and any(l_['ty'] == '[u8; 1]' for l_ in pb.locals)
-                else:
-                    want_fn = 'core::num::<impl %s>::from_le_bytes' % ty_
-                    fns = [o_['fn'].get('orig') for c_ in q.calls(pb) for o_ in c_.args if o_.get('k') == 'const' and isinstance(o_.get('fn'), dict)] + \
-                          [(c_.fn or {}).get('orig') for c_ in q.calls(pb)]
-                    conv = [f_ for f_ in fns if f_ and f_.endswith('_bytes')]
-                    ok2 = conv == [want_fn] and t[0] == 'call' and t[1].endswith('from_le_bytes') and len(t[2]) == 1 and t[2][0] == buf
-            ok = ok2
-            ctx.inst('L0', 'reader.' + k, ok, '%s() = %s of one read_exact on self.input; must be %s::from_le_bytes of exactly that buffer' % (k, show(t)[:80], ty_),
-                     pb.span, key=pb.name + '|L0')
-            continue
-        ctx.inst('L0', 'reader.' + k, ok, '%s() = %s%s on self.input, returned unchanged; must be %s %s' % (
-            k, [c.callee.split('::')[-1] for c in cs], [a for c in cs for a in c.fn.get('args', []) if 'Endian' in a], bo, endian or ''),
-            pb.span, key=pb.name + '|L0')
+    reader_primitives(ctx, 'L0')
     reader_string(ctx, 'L0')
     sk = ctx.anchor(common.READER + 'skip_reserved', 'reader primitive')
     if sk is not None:
@@ -493,6 +500,13 @@ def run(ctx):
     _c09p.parent_search(_R9.View(ctx, {'V4': 'O1', 'V5': 'O1'}))     # every legal layer forest is accepted: the parent of a layer is ANY nearest shallower one (seed C01-m wanted level - 1 exactly)
     common.arm_state_independence(ctx, 'O3')
     tables_accumulate(ctx, 'O3')
+    # a legal header / a legal forest must load: the pixel-ratio refusal (a zero ratio byte means 1:1, seed C01-s) and the layer-count
+    # cap (65536 layers are legal, seed C01-t) are judged by the rules that own them, under this property's O3
+    import C15 as _c15o
+    import C09 as _c09o
+    import rule as _Ro
+    _c15o.pixel_ratio(_Ro.View(ctx, {'T4': 'O3'}))
+    _c09o.layer_cap(_Ro.View(ctx, {'V8': 'O3'}))
     common.rejection_inventory(ctx, 'O3')
 
     # ---------------- O4 lookups / iteration
